@@ -845,6 +845,24 @@ def led_after_crash(led, w, mode):
             for o in lst:
                 if not o["noticed"]:
                     o["waived"] = True
+    # a final report whose effect (the mark) did not survive the crash was never acknowledged by the daemon: the recipient is still
+    # pending and will be attempted again, so the bounce obligation recorded for that report is void (the next report decides)
+    for n, lst in led.bounces_owed.items():
+        recs = w.chan_records(n)
+        for c in (0, 1):
+            if recs[c] is None:
+                continue
+            for a in {o["addr"] for o in lst if o["chan"] == c}:
+                marks = sum(1 for mk, x in recs[c] if mk == b"D" and x == a)
+                reps = led.reports.get((n, c, a), [])
+                fin = sum(1 for l, t, dy, inc in reps if l in (b"K", b"D") or (l == b"Z" and dy is not False))
+                lost = fin - marks
+                for o in reversed(lst):
+                    if lost <= 0:
+                        break
+                    if o["chan"] == c and o["addr"] == a and not o["noticed"] and not o["waived"]:
+                        o["waived"] = True
+                        lost -= 1
     led.disorder = True
     w.outstanding = []
 
